@@ -8,6 +8,7 @@ Decided here, from the MIR of every float-writer back-end that the configuration
   SIB-options    every back-end entry reaches all eight option getters
   ORG-punct      the decimal point / exponent character written come from options.decimal_point() /
                  options.exponent() (or a parameter fed by them); no punctuation byte literal is stored
+  UNIT-lz / PAIR-shift  (power-of-two back-ends) the carry is lz_before - lz_after, and the rounding shift is undone
   MPT-truncate   every round-up effect (shared::round_up, the binary mantissa increment) is reached only
                  on paths where round_mode() is Round
 Not decided: digit counts, rounding values, padding and trimming as functions of (value, options)."""
@@ -301,6 +302,116 @@ def rule_truncate(col, facts):
                   "binary::truncate_and_round has no mantissa increment any more (rule needs re-reading)", f.loc())
 
 
+def rule_binary_round(col, facts):
+    """Power-of-two back-ends: binary::truncate_and_round keeps the top max_digits*bits_per_digit bits.
+    UNIT-lz      `mantissa_bits += lz_before - lz_after`: an increment can only lower leading_zeros(), so the
+                 unsigned difference taken the other way round can only be 0 or wrap.
+    PAIR-shift   every writer aligns digits with calculate_shl(exp, ..) where exp belongs to the *original*
+                 mantissa: the `>> shr` applied for rounding must be undone by `<< shr` (same amount) on every
+                 path before the mantissa is returned."""
+    if not ("power-of-two" in facts.config or "radix" in facts.config):
+        return
+    f = facts.fn(WF + "binary::truncate_and_round")
+    calls = list(f.calls())
+    # ---- UNIT-lz
+    R = "UNIT-lz"
+    lz = [(bb, copy_root(f, a[0]), d[0]) for bb, c, a, d, t in calls if last_seg(callee_name(c)) == "leading_zeros"]
+    incs = []
+    for bb, c, a, d, t in calls:
+        if last_seg(callee_name(c)) in ("add_assign", "add", "wrapping_add"):
+            e = strip_casts(op_expr(f, a[0]))
+            root = None
+            if e[0] == "ref" and e[1][0] == "var":
+                root = e[1][1]
+            elif e[0] == "var":
+                root = e[1]
+            incs.append((bb, root))
+    n = 0
+    for i, b in enumerate(f.blocks):
+        if not f.live(i):
+            continue
+        for st in b["s"]:
+            if st[0] == "=" and st[2][0] == "bin" and st[2][1].startswith("Sub"):
+                x, y = copy_root(f, st[2][2]), copy_root(f, st[2][3])
+                A = [z for z in lz if z[2] == x]
+                B = [z for z in lz if z[2] == y]
+                if not (A and B) or A[0][1] != B[0][1]:
+                    continue
+                mn, sb = A[0], B[0]            # minuend - subtrahend
+                between = [ib for ib, root in incs if root == mn[1]]
+                for ib in between:
+                    n += 1
+                    # minuend must be taken before the increment, subtrahend after it
+                    ok = f.dominates(mn[0], ib) and f.dominates(ib, sb[0]) and mn[0] != sb[0]
+                    col.check(R, "binary::truncate_and_round:carry", ok,
+                              "the carry is computed as leading_zeros() *after* the increment minus leading_zeros() *before* it: an increment never raises leading_zeros(), so this is 0 or wraps (debug: panics; release: mantissa_bits += 2^32-1 and the written number loses its scale)", f.loc(st[3]))
+    col.floor(R, "lz differences around an increment", n, 1)
+    # ---- PAIR-shift
+    R = "PAIR-shift"
+    ret_local = None
+    for i, b in enumerate(f.blocks):
+        if f.live(i) and b["t"]["k"] == "return":
+            for st in b["s"]:
+                if st[0] == "=" and st[1] == [0, []] and st[2][0] == "agg" and len(st[2][2]) == 2:
+                    ret_local = copy_root(f, st[2][2][0])
+    col.check(R, "anchor:returned-mantissa", ret_local is not None, "returned (mantissa, bits) tuple not found", f.loc())
+    if ret_local is None:
+        return
+    def flows_to_ret(dest, bb):
+        # `X = move dest` in the call's target block
+        for b2 in f.blocks:
+            for st in b2["s"]:
+                if st[0] == "=" and st[1] == [ret_local, []] and st[2][0] == "use" and st[2][1][0] in ("cp", "mv") and st[2][1][1] == [dest, []]:
+                    return True
+        return dest == ret_local
+    shrs = [(bb, copy_root(f, a[1]), d[0]) for bb, c, a, d, t in calls if last_seg(callee_name(c)) == "shr" and copy_root(f, a[0]) == 1 and flows_to_ret(d[0], bb)]
+    shls = [(bb, copy_root(f, a[1]), d[0]) for bb, c, a, d, t in calls if last_seg(callee_name(c)) == "shl" and copy_root(f, a[0]) == ret_local and flows_to_ret(d[0], bb)]
+    col.check(R, "anchor:shr", len(shrs) >= 1, "no `mantissa >> shr` feeding the returned mantissa (rule needs re-reading)", f.loc())
+    rets = [i for i, b in enumerate(f.blocks) if f.live(i) and b["t"]["k"] == "return"]
+    callee_ok = bool(shrs)
+    for bb, amt, _d in shrs:
+        undo = {b2 for b2, amt2, _ in shls if amt2 == amt and f.dominates(bb, b2)}
+        # is a return reachable from the shr without passing an undoing shl?
+        seen, todo = set(), list(f.succ()[bb])
+        while todo:
+            x = todo.pop()
+            if x in seen or x in undo:
+                continue
+            seen.add(x)
+            if x in rets:
+                callee_ok = False
+            todo.extend(f.succ()[x])
+    # caller side: the mantissa handed to the writers is `truncate_and_round(..).0 << (bits - significant_bits(..))`
+    n = 0
+    for g in facts.all_fns():
+        if g.crate != "lexical_write_float" or g.kind == "Closure":
+            continue
+        if not any(callee_name(c) == f.short for _b, c, _a, _d, _t in g.calls()):
+            continue
+        for bb, c, a, d, t in g.calls():
+            cn = last_seg(callee_name(c))
+            if not cn.startswith("write_float_"):
+                continue
+            # the argument fed by truncate_and_round(..).0
+            for arg in a:
+                e = strip_casts(op_expr(g, arg))
+                tr = [x for x in expr_calls(e) if x[1] == f.short]
+                if not tr:
+                    continue
+                if not (e[0] == "proj" and e[2] == (0,)) and not any(last_seg(x[1]) == "shl" for x in expr_calls(e)):
+                    continue                      # the bit count / exponent, not the mantissa
+                n += 1
+                restored = False
+                for x in expr_calls(e):
+                    if last_seg(x[1]) == "shl" and len(x[2]) == 2:
+                        base, amt = strip_casts(x[2][0]), x[2][1]
+                        if base[0] == "proj" and base[2] == (0,) and any(last_seg(y[1]) == "significant_bits" for y in expr_calls(amt)) and any(y[1] == f.short for y in expr_calls(amt)):
+                            restored = True
+                col.check(R, "%s->%s:scale" % (g.short.replace(WF, ""), cn), callee_ok or restored,
+                          "the mantissa is handed to the writer still shifted right by the bits dropped in truncate_and_round, but the writer aligns its digits with calculate_shl(exp, bits_per_digit) for the exponent of the unshifted mantissa: whenever the shift is not a multiple of bits_per_digit every digit is wrong (hex 171.75, 2 digits -> \"56.0\")", g.loc(g.blocks[bb]["ts"]))
+    col.floor(R, "writer calls fed by truncate_and_round", n, 3)
+
+
 def run(col, configs, tier):
     for name, facts in configs.items():
         col.set_config(name)
@@ -308,3 +419,4 @@ def run(col, configs, tier):
         guarded(col, rule_option_reach, facts)
         guarded(col, rule_punct, facts)
         guarded(col, rule_truncate, facts)
+        guarded(col, rule_binary_round, facts)
